@@ -54,31 +54,31 @@ Definition from_squares (sz : N) (board : list (list (list pc))) (mv : Z) : posi
      Move.move := mv; White := w; Black := b; Standing := s; Caps := c; Height := hs; Stacks := st; hash := h |}.
 
 (* ---- parsing ---- *)
+(* the byte loop of parseRow for one stack: acc = pieces so far, top first; C/S only as the last byte *)
+Fixpoint parse_stack (len : nat) (i : nat) (s : list N) (acc : list pc) : res (list pc) :=
+  match s with
+  | [] => Ok acc
+  | ch :: r =>
+    if ch =? B "1" then parse_stack len (S i) r (P false 1 :: acc)
+    else if ch =? B "2" then parse_stack len (S i) r (P true 1 :: acc)
+    else if (ch =? B "C") || (ch =? B "S") then
+      if negb (i =? len - 1)%nat then Err else
+      match acc with
+      | [] => Err                                                 (* i == 0: "stone type without a stone" (repaired; was stack[0] on an empty slice) *)
+      | P tb _ :: below => Ok (P tb (if ch =? B "S" then 2 else 3) :: below)
+      end
+    else Err
+  end.
+
 Definition parse_cell (bitS : list N) : res (list (list pc)) :=       (* one comma-separated item: 1 stack, or `count` empties *)
   match bitS with
-  | [] => Panic                                                        (* bit[0] on an empty string *)
+  | [] => Err                                                          (* len(bit) == 0: "empty square in row" (repaired; was bit[0] on an empty string) *)
   | c0 :: rest =>
     if c0 =? B "x" then
       let count := match rest with [] => 1 | c1 :: _ => (c1 + 256 - B "0") mod 256 end in
       Ok (repeat [] (N.to_nat count))
     else
-      let len := length bitS in
-      (* stack[len-i-1] := piece for digits; C/S only as the last byte *)
-      let fix go (i : nat) (s : list N) (acc : list pc) : res (list pc) :=      (* acc = pieces so far, top first *)
-        match s with
-        | [] => Ok acc
-        | ch :: r =>
-          if ch =? B "1" then go (S i) r (P false 1 :: acc)
-          else if ch =? B "2" then go (S i) r (P true 1 :: acc)
-          else if (ch =? B "C") || (ch =? B "S") then
-            if negb (i =? len - 1)%nat then Err else
-            match acc with
-            | [] => Panic                                               (* stack = stack[1:]; stack[0] on an empty slice *)
-            | P tb _ :: below => Ok (P tb (if ch =? B "S" then 2 else 3) :: below)
-            end
-          else Err
-        end in
-      match go 0%nat bitS [] with Ok stk => Ok [stk] | Err => Err | Panic => Panic end
+      match parse_stack (length bitS) 0%nat bitS [] with Ok stk => Ok [stk] | Err => Err | Panic => Panic end
   end.
 
 Fixpoint parse_row_items (items : list (list N)) : res (list (list pc)) :=
